@@ -19,6 +19,8 @@ holds the captured values (`Closure::free`).
   no activation OF THAT OBJECT executes `SetFree` — whatever else happens: the enclosing function
   assigns the variable (`SetLocal`), returns, other closures are created, called, assign their own
   copies.  `closure_snapshot_machine`: the two together on the machine (`Closure c n` … `GetFree i`).
+* `closure_objects_immutable` — in a program that never assigns a captured variable, NOTHING changes
+  a closure object after its creation (reference evaluation, every statement list / expression).
 * `captured_assignment_is_private` — **an assignment to a captured variable changes the running
   closure's own copy and nothing else**: not a stack slot (so: no local variable or parameter of
   any function, the enclosing one included), not a global, no other closure object, no other entry
@@ -164,6 +166,163 @@ theorem call_keeps_caller_slots {Φ : FnDef → Option FDecl} (fuel : Nat) (cx :
       refine ⟨vf, σ1, vs, σ2, rfl, ha, ?_⟩
       repeat' split at h
       all_goals first | (simp at h; done) | (simp only [Option.some.injEq, Prod.mk.injEq] at h; rw [← h.2])
+
+/-! ## programs that never assign a captured variable: closure objects are immutable (reference evaluation)
+
+Capture is BY VALUE: when no function assigns a captured variable (`noFset…`: no `SetFree`
+anywhere — reads only), nothing whatsoever changes a closure object after its creation: not the
+enclosing function assigning or re-defining the captured variable, not its return, not loops,
+not calls of this or other closures.  (With capture by reference the enclosing function's
+assignment would show through.)  For programs that do assign captured variables the general
+statement is `snapshot_stable` on the machine. -/
+
+mutual
+/-- no assignment to a captured variable at this function's own level (the bodies of nested
+function literals are other functions) -/
+def noFsetE : FExpr → Bool
+  | .lit .. | .tru _ | .fls _ | .null _ | .gget .. | .lget .. | .curr _ | .fget .. | .mkclos .. => true
+  | .fset .. => false
+  | .un _ _ e | .gset _ _ e | .lset _ _ e => noFsetE e
+  | .bin _ _ a b | .lt _ a b | .le _ a b | .and _ a b | .or _ a b => noFsetE a && noFsetE b
+  | .ite _ c t e => noFsetE c && noFsetE t && noFsetE e
+  | .matchE _ s arms => noFsetE s && noFsetArms arms
+  | .call _ f args => noFsetE f && noFsetArgs args
+def noFsetArms : FArms → Bool
+  | .last _ _ d => noFsetE d
+  | .cons _ _ body rest => noFsetE body && noFsetArms rest
+def noFsetArgs : FArgs → Bool
+  | .nil => true
+  | .cons a rest => noFsetE a && noFsetArgs rest
+def noFsetS : FStmt → Bool
+  | .letG _ _ e | .letL _ _ e | .expr _ e | .ret _ e => noFsetE e
+  | .block _ body | .loopS _ _ body => noFsetP body
+  | .whileS _ _ c body => noFsetE c && noFsetP body
+  | .breakS .. | .continueS .. | .retN _ => true
+  | .ifS _ _ c thn els => noFsetE c && noFsetP thn && noFsetP els
+def noFsetP : List FStmt → Bool
+  | [] => true
+  | s :: rest => noFsetS s && noFsetP rest
+end
+
+structure HFrame (Φ : FnDef → Option FDecl) (fuel : Nat) : Prop where
+  E : ∀ cx σ e v σ', noFsetE e = true → Fn.evalE Φ fuel cx σ e = some (v, σ') → σ.h <+: σ'.h
+  Arms : ∀ cx σ w a v σ', noFsetArms a = true → Fn.evalArms Φ fuel cx σ w a = some (v, σ') → σ.h <+: σ'.h
+  Args : ∀ cx σ a vs σ', noFsetArgs a = true → Fn.evalArgs Φ fuel cx σ a = some (vs, σ') → σ.h <+: σ'.h
+  S : ∀ cx σ s σ' f bv, noFsetS s = true → Fn.evalS Φ fuel cx σ s = some (σ', f, bv) → σ.h <+: σ'.h
+  P : ∀ cx σ ss σ' f bv, noFsetP ss = true → Fn.evalP Φ fuel cx σ ss = some (σ', f, bv) → σ.h <+: σ'.h
+
+theorem hframe_succ {Φ : FnDef → Option FDecl} (hRO : ∀ fd d, Φ fd = some d → noFsetP d.body = true) (fuel : Nat) (ih : HFrame Φ fuel) : HFrame Φ (fuel + 1) := by
+  have hE := ih.E
+  have hA := ih.Arms
+  have hG := ih.Args
+  have hS := ih.S
+  have hP := ih.P
+  have htr := @List.IsPrefix.trans (List Val)
+  have hrf := @List.prefix_refl (List Val)
+  have hap := @List.prefix_append (List Val)
+  refine ⟨?_, ?_, ?_, ?_, ?_⟩
+  · intro cx σ e v σ' hn he
+    cases e with
+    | call l f args =>
+      simp only [noFsetE, Bool.and_eq_true] at hn
+      simp only [Fn.evalE] at he
+      cases hef : Fn.evalE Φ fuel cx σ f with
+      | none => simp [hef] at he
+      | some rf =>
+        obtain ⟨vf, σ1⟩ := rf
+        simp only [hef] at he
+        cases hea : Fn.evalArgs Φ fuel cx σ1 args with
+        | none => simp [hea] at he
+        | some ra =>
+          obtain ⟨vs, σ2⟩ := ra
+          simp only [hea] at he
+          have h1 := hE _ _ _ _ _ hn.1 hef
+          have h2 := hG _ _ _ _ _ hn.2 hea
+          cases vf with
+          | clos fd fr id =>
+            simp only at he
+            cases hd : Φ fd with
+            | none => simp [hd] at he
+            | some d =>
+              simp only [hd] at he
+              have hro := hRO fd d hd
+              by_cases har : vs.length = d.np
+              · simp only [har, if_true] at he
+                cases hb : Fn.evalP Φ fuel (some (fd, id)) ⟨vs ++ List.replicate (d.nl - d.np) .null, σ2.g, σ2.h⟩ d.body with
+                | none => simp [hb] at he
+                | some rb =>
+                  obtain ⟨σ3, fb, bv⟩ := rb
+                  have h3 := hP _ _ _ _ _ _ hro hb
+                  simp only [hb] at he
+                  have : σ'.h = σ3.h := by
+                    cases fb <;> simp at he <;> rw [← he.2]
+                  rw [this]
+                  exact (h1.trans h2).trans h3
+              · simp [har] at he
+          | _ => simp at he
+    | fset l i e => simp [noFsetE] at hn
+    | mkclos l code lines np nl body caps =>
+      simp only [Fn.evalE] at he
+      cases hc : capVals cx σ caps with
+      | none => simp [hc] at he
+      | some vs =>
+        simp only [hc, Option.some.injEq, Prod.mk.injEq] at he
+        rw [← he.2]
+        exact List.prefix_append _ _
+    | _ => simp only [Fn.evalE] at he <;> simp only [noFsetE, Bool.and_eq_true] at hn <;> grind
+  · intro cx σ w a v σ' hn he
+    cases a <;> simp only [Fn.evalArms] at he <;> simp only [noFsetArms, Bool.and_eq_true] at hn <;> grind
+  · intro cx σ a vs σ' hn he
+    cases a <;> simp only [Fn.evalArgs] at he <;> simp only [noFsetArgs, Bool.and_eq_true] at hn <;> grind
+  · intro cx σ s σ' f bv hn he
+    have hn0 := hn
+    cases s <;> simp only [Fn.evalS] at he <;> simp only [noFsetS, Bool.and_eq_true] at hn <;> grind
+  · intro cx σ ss σ' f bv hn he
+    cases ss <;> simp only [Fn.evalP] at he <;> simp only [noFsetP, Bool.and_eq_true] at hn <;> grind
+
+theorem hframe_all {Φ : FnDef → Option FDecl} (hRO : ∀ fd d, Φ fd = some d → noFsetP d.body = true) : ∀ fuel, HFrame Φ fuel
+  | 0 => ⟨by intro _ _ _ _ _ _ he; simp [Fn.evalE] at he, by intro _ _ _ _ _ _ _ he; simp [Fn.evalArms] at he,
+          by intro _ _ _ _ _ _ he; simp [Fn.evalArgs] at he, by intro _ _ _ _ _ _ _ he; simp [Fn.evalS] at he,
+          by intro _ _ _ _ _ _ _ he; simp [Fn.evalP] at he⟩
+  | fuel+1 => hframe_succ hRO fuel (hframe_all hRO fuel)
+
+theorem prefix_get {α : Type} {h h' : List α} (hp : h <+: h') {id : Nat} {fr : α} (hg : h[id]? = some fr) : h'[id]? = some fr := by
+  obtain ⟨t, rfl⟩ := hp
+  have hid : id < h.length := by
+    cases hlt : decide (id < h.length) with
+    | true => simpa using hlt
+    | false =>
+      have : h.length ≤ id := by simpa using hlt
+      rw [List.getElem?_eq_none this] at hg
+      cases hg
+  rw [List.getElem?_append_left hid]
+  exact hg
+
+/-- **closure objects are immutable when no function assigns a captured variable** (the
+reference evaluation of statements; `…_expr` for expressions): every closure object that exists
+before — created by whichever function, at whatever time — holds the same values afterwards,
+whatever the statements do: assign and re-define the captured variables in the enclosing
+function, loop, return, create and call closures.  The values a closure reads are therefore the
+values captured at its creation (`closure_snapshot`), for ever. -/
+theorem closure_objects_immutable {Φ : FnDef → Option FDecl} (hRO : ∀ fd d, Φ fd = some d → noFsetP d.body = true)
+    (fuel : Nat) (cx : Option (FnDef × Nat)) (σ σ' : Sto) (ss : List FStmt) (f : FFlow) (bv : Val)
+    (hn : noFsetP ss = true) (he : Fn.evalP Φ fuel cx σ ss = some (σ', f, bv)) :
+    ∀ (id : Nat) (fr : List Val), σ.h[id]? = some fr → σ'.h[id]? = some fr :=
+  fun _ _ hg => prefix_get ((hframe_all hRO fuel).P cx σ ss σ' f bv hn he) hg
+
+theorem closure_objects_immutable_expr {Φ : FnDef → Option FDecl} (hRO : ∀ fd d, Φ fd = some d → noFsetP d.body = true)
+    (fuel : Nat) (cx : Option (FnDef × Nat)) (σ σ' : Sto) (e : FExpr) (v : Val)
+    (hn : noFsetE e = true) (he : Fn.evalE Φ fuel cx σ e = some (v, σ')) :
+    ∀ (id : Nat) (fr : List Val), σ.h[id]? = some fr → σ'.h[id]? = some fr :=
+  fun _ _ hg => prefix_get ((hframe_all hRO fuel).E cx σ e v σ' hn he) hg
+
+/-- the hypothesis of `closure_objects_immutable` for a compiled program: a check over its function literals -/
+theorem readOnly_program (T : List FTop) (h : (fnsT 0 T).all (fun x => noFsetP x.2.1.body) = true) :
+    ∀ fd d, phiT T fd = some d → noFsetP d.body = true := by
+  intro fd d hd
+  obtain ⟨kd, hm, _⟩ := lookup_entry (fnsT 0 T) fd d hd
+  have := List.all_eq_true.mp h _ hm
+  simpa using this
 
 /-! ## the machine -/
 
@@ -469,6 +628,12 @@ example : evalT (phiT loopProg) 60 (List.replicate 5 .null) [[]] loopProg =
 example : runGH loopProg 5 600 =
     some ([.clos ⟨[], [], 0, 0, 5⟩ [] 2, .clos ⟨[], [], 0, 0, 6⟩ [] 3, .clos (mkFd [9] [] loopD) [] 1, .int 10, .int 20],
           [[], [], [.int 10], [.int 20]]) := by rfl
+
+/-- `laterProg`, `addersProg`, `loopProg` never assign a captured variable: `closure_objects_immutable` applies to them -/
+example : ((fnsT 0 laterProg).all (fun x => noFsetP x.2.1.body) && (fnsT 0 addersProg).all (fun x => noFsetP x.2.1.body)
+    && (fnsT 0 loopProg).all (fun x => noFsetP x.2.1.body)) = true := by rfl
+/-- … `counterProg` does -/
+example : (fnsT 0 counterProg).all (fun x => noFsetP x.2.1.body) = false := by rfl
 
 /-! ### the recogniser: which instruction loads which captured variable (the free indices) -/
 
